@@ -167,6 +167,9 @@ func sizeSource(kind string, n int) (src []byte, name string) {
 	switch kind {
 	case "strconst":
 		return []byte("print \"" + a + "\" + 1\nprint 2 + nil\n"), name
+	case "rawstr":
+		// a string constant that is not valid UTF-8 (strings are byte sequences): \xff, n letters, a lone \xe9
+		return []byte("print \"\\xff" + a + "\\xe9\" + 1\nprint 2 + nil\n"), name
 	case "strconst2":
 		// two string constants: the second a little longer than the first (scratch buffers grown for one are reused for the next)
 		var sb strings.Builder
@@ -359,12 +362,63 @@ func replayFormat(args []string) int {
 				s.bad("the loaded program differs from the parsed one", shape, raw, map[string]any{"parsed": trimObs(want), "loaded": trimObs(got)}, true)
 				return
 			}
+			// the same file taken by the Load method of a Prog that already holds another program (parsed, richer in constants,
+			// positions and lines): afterwards it is this program and nothing of the other
+			if !cuts {
+				if why := loadIntoUsed(dump, want); why != "" {
+					s.bad("Load into a Prog that held another program: "+why, "load:used-prog", raw, why, true)
+					return
+				}
+			}
 			if cuts && thinKeep(raw, cutsOf, seed) {
 				checkCuts(raw, dump)
 			}
 		}
 	})
 	return s.write(op)
+}
+
+const usedProgSrc = "var a = 11; var b = \"bb\"; var c = 2.5\ndef q \"n\" { f = a; g = b + 1; h = c * 2 }\n\n\nprint a\nprint b\nprint c / 0\nbind q -> struct\n"
+
+func loadIntoUsed(dump []byte, want loadObs) (why string) {
+	defer func() {
+		if r := recover(); r != nil {
+			why = "panic: " + fmt.Sprint(r)
+		}
+	}()
+	var out, lg bytes.Buffer
+	p, err := bcl.Parse([]byte(usedProgSrc), "used", bcl.OptOutput(&out), bcl.OptLogger(&lg))
+	if err != nil {
+		// the filler program must parse; if it does not, this stage has nothing to say
+		p, err = bcl.Parse([]byte("var a = 11\nprint a\n"), "used", bcl.OptOutput(&out), bcl.OptLogger(&lg))
+		if err != nil {
+			return ""
+		}
+	}
+	bcl.Execute(p)
+	if err := p.Load(bytes.NewReader(dump)); err != nil {
+		return "rejected: " + err.Error()
+	}
+	out.Reset()
+	lg.Reset()
+	res, bind, xerr := bcl.Execute(p)
+	xe := ""
+	if xerr != nil {
+		xe = xerr.Error()
+	}
+	var d2 bytes.Buffer
+	p.Dump(&d2)
+	switch {
+	case fmt.Sprintf("%x", d2.Bytes()) != want.Redump:
+		return "it dumps to other bytes than the file"
+	case out.String() != want.Out:
+		return fmt.Sprintf("output %q, the program's is %q", trunc(out.Bytes(), 80), trunc([]byte(want.Out), 80))
+	case xe != want.XErr:
+		return fmt.Sprintf("error %q, the program's is %q", xe, want.XErr)
+	case canonBlocks(res)+" / "+canonBinding(bind) != want.Res:
+		return "blocks or binding differ"
+	}
+	return ""
 }
 
 func trimObs(o loadObs) loadObs {
